@@ -447,6 +447,9 @@ def capture_requests(case):
     options = case.get("options") or {}
     out = {"status": "ok", "ops": {}, "problems": []}
     with genpkg.scratch() as d:
+        import os
+        if options.get("files_to_include"):
+            options = dict(options, files_to_include=[os.path.join(d, p[1:]) if p.startswith("@") else p for p in options["files_to_include"]])
         try:
             pkg, pdir, _ = genpkg.generate(d, schema_text, case["doc_text"], options, files=case.get("files"))
         except genpkg.GenError as e:
